@@ -256,6 +256,31 @@ CLAIMED = {
         "_abs_lexpos / balanced_parens, replace_logical_line, strip_continuation_comments, _have_open_triple_quotes (a ghost predicate here), "
         "CtxAwareTransformer.try_subproc_toks / _column_window, the lexer's whitespace synthesis. Trusted: pyvc engine + models + z3.",
    design="§3 C03"),
+ "C04": dict(
+   category="proof",
+   text="tools.expand_path for ALL words and switch settings, with os.path.expanduser / expandvars as ghost functions: a word is returned untouched when both expansions are off; "
+        "with tilde expansion off the result is exactly the ($VAR-expanded) word; a plain word gets exactly one tilde expansion; for `key=value` the key is expanded, the `=` kept, "
+        "and the result is key' = ':'.join(map(expanduser, value.split(':'))) - EACH colon-separated field expanded on its own, none dropped, added or merged (map over a sequence "
+        "value is the uninterpreted sequence map_f(xs) with its two defining facts, so code and clause denote the same term). Bounded stand-in (not proved): 39 argument strings "
+        "(spaces, quotes, backslashes, newlines, glob and shell metacharacters, tilde / assignment shapes) x up to 8 delivery forms (@(expr), @([list]), r'..', r\"\"\"..\"\"\", plain, "
+        "triple-quoted, f-string, bare word) x 3 positions through the real execer to a recording callable alias, plus a real child process for a subset.",
+   note="Unverified: the parser actions that assemble the argument list (_subproc_cliargs, p_subproc_atom_*, p_string_literal - bounded only), @() injection helpers "
+        "(list_of_strs_or_callables, ensure_str_or_callable), macro raw-text slicing, SubprocSpec.resolve_args_list / _fix_null_cmd_bytes, @$() re-splitting, expandvars itself, "
+        "that os.path.expanduser leaves text not starting with `~` alone (assumed). Trusted: pyvc engine + str.split / str.join / map as uninterpreted functions + z3.",
+   design="§3 C04"),
+ "C18": dict(
+   category="bounded",
+   text="Deductive part (small): in _quote_paths, for every candidate name and every prefix / quote state, the raw prefix is chosen only for names without control characters, and a "
+        "name with `$` or backslash and no control character is written raw (asserts on the real decision statements, rest of the loop body abstracted). The property itself - "
+        "decode(quote(name)) == name - needs xonsh's lexer as a specification function and is NOT proved: bounded stand-ins on the real code: 36 file names (spaces, both quotes, $, "
+        "backslashes, newline / tab / CR, glob and shell metacharacters, leading ~ - # !, a keyword, trailing space / backslash) x typed prefixes (nothing, 1-2 characters, an opened "
+        "' / \" / r' with and without a first character) spliced like the shell does and read back through the real execer; the analyser on every string over a 9-character alphabet up to "
+        "length 4 (thorough 5) x every cursor position (never raises; prefix / suffix reproduce the text around the cursor).",
+   note="KNOWN FINDINGS (recorded, 5): the delimiter quote inside a raw literal; control characters when the user opened a raw literal; a trailing backslash in a raw literal; a leading "
+        "`!` is not quoted; a trailing space of a name is dropped. Level is `bounded`: no contract within reach expresses the read-back property (it is stated through the lexer). "
+        "Unverified: name_needs_quotes / _PATTERN completeness, _path_from_partial_string, Completer.complete_line splicing (re-implemented in the harness the same way). "
+        "Trusted: the harness + pyvc engine for the two asserts.",
+   design="§3 C18"),
 }
 NA = {
  "C01": "equivalence of two grammars (PLY LALR tables vs CPython's PEG parser) is not a function contract; no contract within reach can express or decide it (DESIGN §3 C01)",
